@@ -104,6 +104,9 @@ func init() {
 			check = c17ConcCheck(c, base, sc, scratch)
 		default:
 			lin := linCheck(base)
+			if strings.HasPrefix(sc.Name, "BK-") {
+				lin = c12Check(c, base, sc, map[string]*explore.Recovered{})
+			}
 			check = func(r *explore.ConcRun) (string, string) {
 				if cl, m := lin(r); m != "" {
 					return cl, m
